@@ -29,6 +29,10 @@ type target struct {
 	call   func() int
 	orig   int
 	entry  uintptr
+	fam    string             // "" function, "T" / "L" method of that struct
+	lit    bool               // function literal: reachable through Func(variable) only
+	gen    bool               // generic instantiation: goom patches the shape body behind the wrapper
+	mv     func() interface{} // the method value recv.M (via v)
 }
 
 var targets = []*target{
@@ -37,11 +41,18 @@ var targets = []*target{
 	{name: "F2", fn: F2, call: func() int { return F2(probeArg) }},
 	{name: "F3", fn: F3, call: func() int { return F3(probeArg) }},
 	{name: "u4", fn: u4, call: func() int { return u4(probeArg) }},
-	{name: "G5", fn: G5int, call: func() int { return CallG5(probeArg) }},
+	{name: "G5", fn: G5int, gen: true, call: func() int { return CallG5(probeArg) }},
 	{name: "Tiny6", fn: Tiny6, call: func() int { return Tiny6(probeArg) }},
-	{name: "(*T).M7", method: "M7", fn: (*T).M7, call: func() int { return (&T{A: 1}).M7(probeArg) }},
-	{name: "(*T).M8", method: "M8", fn: (*T).M8, call: func() int { return (&T{A: 1}).M8(probeArg) }},
-	{name: "(*T).m9", method: "m9", fn: (*T).m9, call: func() int { return (&T{A: 1}).m9(probeArg) }},
+	{name: "(*T).M7", method: "M7", fam: "T", fn: (*T).M7, mv: func() interface{} { return (&T{A: 1}).M7 }, call: func() int { return (&T{A: 1}).M7(probeArg) }},
+	{name: "(*T).M8", method: "M8", fam: "T", fn: (*T).M8, mv: func() interface{} { return (&T{A: 1}).M8 }, call: func() int { return (&T{A: 1}).M8(probeArg) }},
+	{name: "(*T).m9", method: "m9", fam: "T", fn: (*T).m9, mv: func() interface{} { return (&T{A: 1}).m9 }, call: func() int { return (&T{A: 1}).m9(probeArg) }},
+	{name: "H10", lit: true, fn: H10, call: func() int { return H10(probeArg) }},
+	{name: "H11", lit: true, fn: H11, call: func() int { return H11(probeArg) }},
+	{name: "(*L).Add", method: "Add", fam: "L", fn: (*L).Add, mv: func() interface{} { return (&L{N: 1}).Add }, call: func() int { return (&L{N: 1}).Add(probeArg) }},
+	{name: "(*L).Addf", method: "Addf", fam: "L", fn: (*L).Addf, mv: func() interface{} { return (&L{N: 1}).Addf }, call: func() int { return (&L{N: 1}).Addf(probeArg) }},
+	{name: "(*L).Addm", method: "Addm", fam: "L", fn: (*L).Addm, mv: func() interface{} { return (&L{N: 1}).Addm }, call: func() int { return (&L{N: 1}).Addm(probeArg) }},
+	{name: "(*L).Addfm", method: "Addfm", fam: "L", fn: (*L).Addfm, mv: func() interface{} { return (&L{N: 1}).Addfm }, call: func() int { return (&L{N: 1}).Addfm(probeArg) }},
+	{name: "(*L).Addmf", method: "Addmf", fam: "L", fn: (*L).Addmf, mv: func() interface{} { return (&L{N: 1}).Addmf }, call: func() int { return (&L{N: 1}).Addmf(probeArg) }},
 }
 
 type neighbour struct {
@@ -57,6 +68,18 @@ var neighbours = []*neighbour{
 
 var cbF = []interface{}{K0, K1, K2, K3}
 var cbM = []interface{}{KM0, KM1, KM2, KM3}
+var cbL = []interface{}{KL0, KL1, KL2, KL3}
+
+// cbFor picks the callback of class k with the target's signature
+func cbFor(t *target, k int) interface{} {
+	switch t.fam {
+	case "T":
+		return cbM[k]
+	case "L":
+		return cbL[k]
+	}
+	return cbF[k]
+}
 
 type placeholder struct {
 	ptr   interface{} // pointer to the func variable, as Origin(&o) wants it
@@ -106,7 +129,7 @@ func setup() {
 	}
 	for i, t := range targets {
 		t.entry = reflect.ValueOf(t.fn).Pointer()
-		if patch.IsGenericsFunc(runtime.FuncForPC(t.entry).Name()) {
+		if t.gen { // decided by the corpus, not by goom's own name classifier
 			in, err := bytecode.GetInnerFunc(64, t.entry)
 			if err != nil || in == 0 {
 				panic("no inner function for generic target")
@@ -127,6 +150,7 @@ func setup() {
 	for k := range cbF {
 		cbSym[funcvalAddr(cbF[k])] = fmt.Sprintf("k%d", k)
 		cbSym[funcvalAddr(cbM[k])] = fmt.Sprintf("k%d", k)
+		cbSym[funcvalAddr(cbL[k])] = fmt.Sprintf("k%d", k)
 	}
 	snapshot = make([]byte, textHi-textLo)
 	copy(snapshot, memory.RawAccess(textLo, len(snapshot)))
@@ -184,25 +208,45 @@ func diff() string {
 			}
 		}
 	}
-	var out []string
+	type ent struct {
+		rank, idx int
+		s         string
+	}
+	var ents []ent
 	for e, r := range regs {
 		sym, ok := symByEntry[e]
+		idx := 0
+		if ok {
+			idx, _ = strconv.Atoi(sym[1:])
+		}
 		switch {
 		case ok && sym[0] == 'f' && r.hi < 13:
 			i := int(e - textLo)
-			out = append(out, sym+"="+canon13(cur[i:i+13]))
+			ents = append(ents, ent{0, idx, sym + "=" + canon13(cur[i:i+13])})
 		case ok && sym[0] == 'f':
-			out = append(out, fmt.Sprintf("%s!%d-%d", sym, r.lo, r.hi))
+			ents = append(ents, ent{0, idx, fmt.Sprintf("%s!%d-%d", sym, r.lo, r.hi)})
 		case ok:
-			out = append(out, sym)
+			ents = append(ents, ent{1, idx, sym})
 		default:
-			out = append(out, fmt.Sprintf("?%s+%d-%d", names[e], r.lo, r.hi))
+			ents = append(ents, ent{2, 0, fmt.Sprintf("?%s+%d-%d", names[e], r.lo, r.hi)})
 		}
 	}
-	if len(out) == 0 {
+	if len(ents) == 0 {
 		return "-"
 	}
-	sort.Strings(out)
+	sort.Slice(ents, func(i, j int) bool {
+		if ents[i].rank != ents[j].rank {
+			return ents[i].rank < ents[j].rank
+		}
+		if ents[i].idx != ents[j].idx {
+			return ents[i].idx < ents[j].idx
+		}
+		return ents[i].s < ents[j].s
+	})
+	out := make([]string, len(ents))
+	for i, e := range ents {
+		out[i] = e.s
+	}
 	return strings.Join(out, ",")
 }
 
@@ -289,16 +333,10 @@ func (h *hist) exported(b *mocker.Builder, via string, t *target) mocker.Exporte
 
 // methodValue is `recv.M` (a method value): goom sees the `-fm` wrapper and patches the method by name
 func methodValue(t *target) interface{} {
-	recv := &T{A: 1}
-	switch t.method {
-	case "M7":
-		return recv.M7
-	case "M8":
-		return recv.M8
-	case "m9":
-		return recv.m9
+	if t.mv == nil {
+		panic("bad-op")
 	}
-	panic("bad-op")
+	return t.mv()
 }
 
 func (h *hist) step(toks []string) {
@@ -355,7 +393,7 @@ func (h *hist) step(toks []string) {
 		panic("bad-op")
 	}
 	isMeth := t.method != ""
-	if (via == "m" || via == "u" || via == "v") && !isMeth {
+	if ((via == "m" || via == "u") && t.fam != "T") || (via == "v" && !isMeth) || (t.lit && via != "f") {
 		panic("bad-op")
 	}
 	var origin interface{}
@@ -369,7 +407,7 @@ func (h *hist) step(toks []string) {
 			panic("bad-op")
 		}
 		p := placeholders[pi]
-		if p.meth != isMeth {
+		if p.meth != (t.fam == "T") || t.fam == "L" {
 			panic("bad-op")
 		}
 		origin = p.ptr
@@ -398,10 +436,7 @@ func (h *hist) step(toks []string) {
 		}
 		switch toks[0] {
 		case "A":
-			cb := cbF[atoi(toks[4])]
-			if isMeth {
-				cb = cbM[atoi(toks[4])]
-			}
+			cb := cbFor(t, atoi(toks[4]))
 			if hd.un != nil {
 				hd.un.Apply(cb)
 			} else {
@@ -424,10 +459,7 @@ func (h *hist) step(toks []string) {
 	}
 	switch toks[0] {
 	case "a":
-		cb := cbF[atoi(toks[4])]
-		if isMeth {
-			cb = cbM[atoi(toks[4])]
-		}
+		cb := cbFor(t, atoi(toks[4]))
 		switch via {
 		case "f", "m", "v":
 			m := h.exported(b, via, t)
@@ -633,6 +665,9 @@ func describeStatic() string {
 	for k := range cbM {
 		ks = append(ks, fmt.Sprintf("%#x", funcvalAddr(cbM[k])))
 	}
+	for k := range cbL {
+		ks = append(ks, fmt.Sprintf("%#x", funcvalAddr(cbL[k])))
+	}
 	for _, p := range placeholders {
 		sz, err := bytecode.GetFuncSize(64, p.entry, false)
 		if err != nil {
@@ -654,15 +689,12 @@ func TestVerifC02Describe(t *testing.T) {
 	for _, tg := range targets {
 		row := ""
 		for _, p := range placeholders {
-			if p.meth != (tg.method != "") {
+			if p.meth != (tg.fam == "T") || tg.fam == "L" {
 				row += "-"
 				continue
 			}
 			h := &hist{b: []*mocker.Builder{mocker.Create()}}
-			cb := cbF[0]
-			if p.meth {
-				cb = cbM[0]
-			}
+			cb := cbFor(tg, 0)
 			ok := func() (ok bool) {
 				defer func() {
 					if r := recover(); r != nil {
@@ -722,11 +754,7 @@ func TestVerifC02Stale(t *testing.T) {
 			m = h.exported(h.b[0], op.Toks[1], tg)
 			mock := func(kind string, n int) {
 				if kind == "a" {
-					if tg.method != "" {
-						m.Apply(cbM[n])
-					} else {
-						m.Apply(cbF[n])
-					}
+					m.Apply(cbFor(tg, n))
 				} else {
 					m.Return(200000 + n)
 				}
